@@ -388,13 +388,25 @@ class Fn:
         return self._uses.get(local, [])
 
 
-def call_matches(term, patterns):
-    for key in ('callee', 'resolved'):
+def call_names(term):
+    """candidate names of a call's callee: declared path, resolved path, and `SelfType::method` for methods of
+    inherent impls (whose def-path names the module of the impl block, not of the type)"""
+    out = []
+    for key, selfkey in (('callee', 'cself'), ('resolved', 'rself')):
         p = term.get(key)
         if p is None:
             continue
+        out.append(norm(p))
+        st = term.get(selfkey)
+        if st:
+            out.append(norm(st) + '::' + last_seg(p))
+    return out
+
+
+def call_matches(term, patterns):
+    for p in call_names(term):
         for pat in patterns:
-            if path_matches(p, pat):
+            if p == pat or p.endswith('::' + pat):
                 return True
     return False
 
@@ -637,7 +649,11 @@ class Crate:
         out = []
         for f in self.fns(view):
             if pattern is not None and not path_matches(f.path, pattern):
-                continue
+                # `Type::method` also names a method of an inherent impl written in another module
+                sa = f.assoc.get('self_adt')
+                alt = (norm(sa) + '::' + f.name) if sa and f.kind != 'Closure' else None
+                if alt is None or not (alt == pattern or alt.endswith('::' + pattern)):
+                    continue
             if name is not None and f.name != name:
                 continue
             if trait is not None and not path_matches(f.assoc.get('trait'), trait):
